@@ -594,6 +594,22 @@ func c08AtomicSection(c *Ctx, all map[string][]*LockAnalysis) {
 	c.Floor("C08.L7-refused-announcement-leaves-no-trace", 1)
 	hookAfterWalk(c, "C08.L6-report-only-on-success")
 	c.Floor("C08.L6-report-only-on-success", 1)
+	// what an announce-triggered sync records as latest-synced (and so what the next announcement is compared with
+	// and stops at) is the announced head it was given
+	{
+		var sendFns []*ssa.Function
+		for _, f := range c.Funcs(dagsyncPkg) {
+			instrsDeep(f.SSA, func(g *ssa.Function, in ssa.Instruction) {
+				if snd, ok := in.(*ssa.Send); ok {
+					if x := c.E(snd.Chan); x.Op == "field" && x.Name == "inEvents" {
+						sendFns = append(sendFns, g)
+					}
+				}
+			})
+		}
+		syncedHeadRecorded(c, "C08.L6-synced-head-recorded", sendFns)
+		c.Floor("C08.L6-synced-head-recorded", 2)
+	}
 }
 
 // callsStatic reports whether fn (or a literal nested in it) calls target statically.
